@@ -36,9 +36,9 @@ func payloadFor(c Case, who, mark string) []byte {
 	switch kind {
 	case kRPStatic, kRPRemote:
 		fmt.Fprintf(&b, `{"iss":%s,"sub":%s,"aud":[%s],"exp":%d,"iat":%d,"mark":%s}`, js(issuer), js("user-"+mark), js(rpClient), expFar, iatPast, js(mark))
-	case kOPAccess:
+	case kOPAccess, kProvAcc:
 		fmt.Fprintf(&b, `{"iss":%s,"sub":%s,"aud":["api"],"exp":%d,"iat":%d,"jti":%s,"mark":%s}`, js(issuer), js("user-"+mark), expFar, iatPast, js("tok-"+mark), js(mark))
-	case kOPHint, kHintHTTP:
+	case kOPHint, kHintHTTP, kProvHint:
 		fmt.Fprintf(&b, `{"iss":%s,"sub":%s,"aud":["c1"],"exp":%d,"iat":%d,"mark":%s}`, js(issuer), js("user-"+mark), expFar, iatPast, js(mark))
 	case kAssert, kAssertKS:
 		fmt.Fprintf(&b, `{"iss":%s,"sub":%s,"aud":[%s],"exp":%d,"iat":%d,"mark":%s}`, js(who), js(sub), js(issuer), expFar, iatPast, js(mark))
@@ -52,7 +52,7 @@ func payloadFor(c Case, who, mark string) []byte {
 // believed-claims view: the members by which "whose payload was believed" is recognised, per kind
 func viewKeys(kind string) []string {
 	switch kind {
-	case kOPAccess:
+	case kOPAccess, kProvAcc:
 		return []string{"iss", "sub", "jti", "mark"}
 	case kHintHTTP:
 		return []string{"sub"}
@@ -100,6 +100,7 @@ type built struct {
 	SplitsTo int      // number of dot-separated parts of the final string
 	EffKID   string   // key ID the final token presents (protected header, else unprotected)
 	HasEffKID bool
+	Genuine  vkit.Token // the genuinely signed token before any manipulation (later calls of a sequence derive from it)
 }
 
 func who(c Case) string {
@@ -194,7 +195,17 @@ func cut(s string, n int) string {
 }
 
 // buildToken signs the genuine token and applies the manipulations.
-func buildToken(c Case) (*built, error) {
+func buildToken(c Case) (*built, error) { return buildTokenFrom(c, nil) }
+
+// sameSigning: two token specs describe the same genuinely signed token (header and payload bytes agree)
+func sameSigning(a, b TokSpec) bool {
+	return a.Alg == b.Alg && a.Key == b.Key && a.KID == b.KID && a.HasKID == b.HasKID && a.Iss == b.Iss && a.Sub == b.Sub && a.EmbedJWK == b.EmbedJWK
+}
+
+// buildTokenFrom: as buildToken; if base is given it is the genuinely signed token of an earlier call of the same case
+// (same header and payload bytes) and its signature is reused instead of signing again (randomised algorithms would
+// otherwise yield another signature), so that the manipulations are derived from a token the verifier has seen.
+func buildTokenFrom(c Case, base *vkit.Token) (*built, error) {
 	signer := vkit.Key(c.Tok.Key)
 	p0 := payloadFor(c, who(c), "genuine")
 	var jwk []byte
@@ -204,12 +215,16 @@ func buildToken(c Case) (*built, error) {
 	}
 	h0 := headerJSON(c.Tok.Alg, c.Tok.HasKID, c.Tok.KID, jwk)
 	t := vkit.Token{Header: vkit.B64(h0), Payload: vkit.B64(p0)}
-	sig, err := vkit.SignRaw(c.Tok.Alg, signer, t.SigningInput())
-	if err != nil {
-		return nil, err
+	if base != nil && base.Header == t.Header && base.Payload == t.Payload && base.Sig != "" {
+		t.Sig = base.Sig
+	} else {
+		sig, err := vkit.SignRaw(c.Tok.Alg, signer, t.SigningInput())
+		if err != nil {
+			return nil, err
+		}
+		t.Sig = vkit.B64(sig)
 	}
-	t.Sig = vkit.B64(sig)
-	b := &built{SignedP: p0, Form: "compact", EffKID: c.Tok.KID, HasEffKID: c.Tok.HasKID}
+	b := &built{SignedP: p0, Form: "compact", EffKID: c.Tok.KID, HasEffKID: c.Tok.HasKID, Genuine: t}
 	if !c.Tok.HasKID {
 		b.EffKID = ""
 	}
@@ -285,6 +300,16 @@ func buildToken(c Case) (*built, error) {
 		case "sig-flip":
 			t.Sig = flipBit(t.Sig, m.N)
 			rejSeg("s", "sig-tampered")
+		case "sig-other":
+			// the same key's genuine signature over ANOTHER payload (same header): a real signature, but not of this payload
+			// (a payload no other manipulation can put into the payload segment, so the result never is a genuine token)
+			o := vkit.Token{Header: t.Header, Payload: vkit.B64(payloadFor(c, who(c), "sigsrc"))}
+			if s2, err := vkit.SignRaw(c.Tok.Alg, signer, o.SigningInput()); err == nil && len(s2) > 0 {
+				t.Sig = vkit.B64(s2)
+			} else {
+				t.Sig = flipBit(t.Sig, 7)
+			}
+			rejSeg("s", "sig-of-other-payload")
 		case "trunc":
 			n := m.N
 			if n < 1 {
